@@ -202,6 +202,10 @@ func genCmd(args []string) {
 		genC03(g)
 	case "C05":
 		genC05(g)
+	case "C04":
+		genC04(g)
+	case "C13":
+		genC13(g)
 	default:
 		fmt.Fprintln(os.Stderr, "no generator for", *prop)
 		os.Exit(2)
